@@ -35,17 +35,42 @@ theorem matchPat_lit_head {leaf : Bool} {s : Str} {ps : List Seg} {p : Str}
 
 /-! ### route selection returns a registered route that matches -/
 
-theorem pickBest_mem {l : List Route} {r : Route} (h : pickBest l = some r) : r ∈ l := by
-  induction l generalizing r with
-  | nil => simp [pickBest] at h
+theorem mem_insertSorted {α} (lt : α → α → Bool) (x y : α) (l : List α) (h : y ∈ insertSorted lt x l) : y = x ∨ y ∈ l := by
+  induction l with
+  | nil => simp [insertSorted] at h; exact Or.inl h
   | cons a as ih =>
-    simp only [pickBest] at h
+    simp only [insertSorted] at h
     split at h
-    · simp at h; simp [h]
-    · next b hb =>
-      split at h
-      · simp at h; subst h; exact List.mem_cons_of_mem _ (ih hb)
-      · simp at h; simp [h]
+    · simp at h; rcases h with h | h | h <;> simp [h]
+    · simp at h
+      rcases h with h | h
+      · simp [h]
+      · rcases ih h with h | h <;> simp [h]
+
+theorem mem_sortBy {α} (lt : α → α → Bool) (y : α) (l : List α) (h : y ∈ sortBy lt l) : y ∈ l := by
+  induction l with
+  | nil => simp [sortBy] at h
+  | cons a as ih =>
+    simp only [sortBy, List.foldr] at h
+    rcases mem_insertSorted lt a y _ h with h | h
+    · simp [h]
+    · exact List.mem_cons_of_mem _ (ih h)
+
+theorem walkCands_mem {all : List Route} {m : String} {l : List Route} {r : Route}
+    (h : walkCands all m l = some r) : r ∈ all ∧ r.method = m := by
+  induction l with
+  | nil => simp [walkCands] at h
+  | cons a as ih =>
+    simp only [walkCands] at h
+    split at h
+    · next q hq =>
+      simp at h; subst h
+      have := List.find?_some hq
+      simp only [Bool.and_eq_true, decide_eq_true_eq] at this
+      exact ⟨List.mem_of_find?_eq_some hq, this.2⟩
+    · split at h
+      · simp at h
+      · exact ih h
 
 theorem findRoute_handler {rs : List Route} {m : String} {p : Str} {r : Route}
     (h : findRoute rs m p = .handler r) : r ∈ rs ∧ pathMatches rs p r = true ∧ r.method = m := by
@@ -55,9 +80,10 @@ theorem findRoute_handler {rs : List Route} {m : String} {p : Str} {r : Route}
   · next r' hb =>
     have hr : r' = r := by simpa using h
     subst hr
-    have hm := pickBest_mem hb
-    simp only [List.mem_filter, decide_eq_true_eq] at hm
-    exact ⟨hm.1.1, hm.1.2, hm.2⟩
+    obtain ⟨hmem, hm⟩ := walkCands_mem hb
+    have hmem' := mem_sortBy _ _ _ hmem
+    simp only [List.mem_filter] at hmem'
+    exact ⟨hmem'.1, hmem'.2, hm⟩
   · split at h <;> simp at h
 
 /-! ### unescape keeps a `%`-free literal prefix -/
